@@ -65,7 +65,7 @@ def compose_histories(ctx, kindsets, assigns, shapes, configs, total):
     its kinds to mounts).  First a covering family (every kind x every mount x every configuration,
     three plants per run), then a seeded sample of the enumerated cross product."""
     rng = ctx.rng
-    ksets = sorted(tuple(k["kinds"]) for k in kindsets)
+    ksets = sorted(tuple(k["kinds"]) for k in kindsets if "abyss" not in k["kinds"])   # the 6000-level chain belongs to the low-limit pass
     kindex = {frozenset(k): k for k in ksets}
     asg = {}
     for a in assigns:
@@ -328,7 +328,7 @@ def run(ctx):
         kindsets, assigns, shapes, configs = rd("kindsets.ndjson"), rd("assigns.ndjson"), rd("shapes.ndjson"), rd("configs.ndjson")
         if not kindsets or not assigns or not shapes or not configs:
             raise vlib.Inconclusive("Reset_Gen produced no cases")
-        hist, cover = compose_histories(ctx, kindsets, assigns, shapes, configs, ctx.pick(44, 400))
+        hist, cover = compose_histories(ctx, kindsets, assigns, shapes, configs, ctx.pick(44, 320))
         low = lownofile_histories(ctx, kindsets, assigns, configs)
         ctx.log("reset: %d kind sets x %d assignments x %d shapes x %d configurations enumerated; %d histories (%d covering) + %d under a low descriptor limit" % (
             len(kindsets), len(assigns), len(shapes), len(configs), len(hist), cover, len(low)))
